@@ -2,6 +2,7 @@
 package c13
 
 import (
+	"bytes"
 	"encoding/xml"
 	"fmt"
 	"sort"
@@ -326,6 +327,21 @@ func checkStanzaErr(e stanza.Error, desc string, carrier int) *nd.Violation {
 	}
 	if normErr(dm) != desc {
 		return viol("stanza-error:roundtrip-differs", "%s: %s decodes to {%s}", desc, mb, normErr(dm))
+	}
+	// an application-specific condition next to the defined one (RFC 6120 8.3.2)
+	// is an element of the application's namespace, whatever its local name: it
+	// is none of the fields of the value and changes none of them
+	if i := bytes.LastIndex(mb, []byte("</error>")); i >= 0 {
+		for _, app := range []string{`<text xmlns="urn:app">app</text>`, `<text xmlns="urn:app" xml:lang="en">app</text>`, `<bad-request xmlns="urn:app"/>`, `<by xmlns="urn:app">x</by>`} {
+			doc := string(mb[:i]) + app + "</error>"
+			var da stanza.Error
+			if err := xml.Unmarshal([]byte(doc), &da); err != nil {
+				return viol("stanza-error:application-condition-not-tolerated", "%s: %s: %v", desc, doc, err)
+			}
+			if normErr(da) != desc {
+				return viol("stanza-error:application-condition-mistaken-for-a-field", "%s: %s decodes to {%s}", desc, doc, normErr(da))
+			}
+		}
 	}
 	if carrier == 1 {
 		iq := stanza.IQ{ID: "1", Type: stanza.GetIQ, To: jidPool[2]}
